@@ -686,36 +686,53 @@ fn run_c19(ctx: &mut Ctx) {
     ctx.tally("loom");
     // (d) free-running complement
     if ctx.shard == 0 {
-        let base2 = base.clone();
-        let bad: Vec<String> = std::thread::scope(|s| {
-            let hs: Vec<_> = (0..16)
-                .map(|t| {
-                    let base = &base2;
-                    s.spawn(move || {
-                        crate::ctx::install_panic_hook();
-                        let mut bad = Vec::new();
-                        for round in 0..60 {
-                            for i in 0..N_CALLS {
-                                let c = (i + t + round) % N_CALLS;
-                                let r = call(c, &NoTick);
-                                if r != base[c] && bad.len() < 2 {
-                                    bad.push(format!("thread {t}: {} returned {}", CALL_NAMES[c], clip(&r)));
-                                }
-                            }
-                        }
-                        bad
-                    })
-                })
-                .collect();
-            hs.into_iter().flat_map(|h| h.join().unwrap_or_default()).collect()
-        });
-        ctx.executions += 16 * 60 * N_CALLS as u64;
-        if let Some(b) = bad.first() {
-            ctx.violation("C19 free-running-threads".into(), b.clone(), 16, || json!({"kind":"free-running"}));
+        let (n, bad) = free_running(&base, 1500);
+        ctx.executions += n;
+        if let Some(b) = bad {
+            ctx.violation("C19 free-running-threads".into(), b, 16, || json!({"kind":"free-running"}));
         }
         ctx.guard("free-running");
     }
     ctx.samples.push(hist_json(&[1, 2, 0], "in-process"));
+}
+
+/// 16 OS threads making the calls of the alphabet concurrently for `millis` ms (decode-heavy mix:
+/// threads 0..8 only decode, the others run the whole alphabet); every result is compared with
+/// the sequential baseline. Not exhaustive: a complement for races that have no scheduling point
+/// loom can see. A mismatch is a concrete wrong result of the real code, so reporting it is sound.
+fn free_running(base: &[String], millis: u64) -> (u64, Option<String>) {
+    let stop = std::sync::atomic::AtomicBool::new(false);
+    let count = AtomicU64::new(0);
+    let t0 = std::time::Instant::now();
+    let bad: Vec<String> = std::thread::scope(|s| {
+        let hs: Vec<_> = (0..16usize)
+            .map(|t| {
+                let (stop, count) = (&stop, &count);
+                s.spawn(move || {
+                    crate::ctx::install_panic_hook();
+                    let mut bad = Vec::new();
+                    let mut round = 0usize;
+                    while !stop.load(Ordering::Relaxed) {
+                        let c = if t < 8 { [0usize, 1, 2, 3, 5, 1, 0, 5][(round + t) % 8] } else { (round + t) % N_CALLS };
+                        let r = call(c, &NoTick);
+                        count.fetch_add(1, Ordering::Relaxed);
+                        if r != base[c] {
+                            bad.push(format!("thread {t}, iteration {round}: {} returned {} ; alone it returns {}", CALL_NAMES[c], clip(&r), clip(&base[c])));
+                            stop.store(true, Ordering::Relaxed);
+                            break;
+                        }
+                        round += 1;
+                        if round % 64 == 0 && t0.elapsed().as_millis() as u64 > millis {
+                            stop.store(true, Ordering::Relaxed);
+                        }
+                    }
+                    bad
+                })
+            })
+            .collect();
+        hs.into_iter().flat_map(|h| h.join().unwrap_or_default()).collect()
+    });
+    (count.load(Ordering::Relaxed), bad.into_iter().next())
 }
 
 fn replay_c19(ctx: &mut Ctx, v: &Value) {
@@ -759,6 +776,17 @@ fn replay_c19(ctx: &mut Ctx, v: &Value) {
             let after = result_hash(entry, &bytes);
             if plain != after {
                 ctx.violation("C19 long-history replay".into(), format!("result changes after call {}", CALL_NAMES[d]), bytes.len(), || v.clone());
+            }
+        }
+        Some("free-running") => {
+            // timing-dependent: try for up to 20 s
+            for _ in 0..10 {
+                let (n, bad) = free_running(&base, 2000);
+                println!("  {n} concurrent calls");
+                if let Some(b) = bad {
+                    ctx.violation("C19 free-running-threads".into(), b, 16, || v.clone());
+                    break;
+                }
             }
         }
         Some("silence-sweep") | Some("fd") => {
